@@ -64,8 +64,23 @@ Definition check (k : case) : bool :=
   check_wf k && check_spaces k && check_forward k && check_adjoint k && check_double k && check_verdict k.
 End Corr.
 
+(* ProductSpaceOperator through its COO triples (C05/Coo.v): forward = sum of all triples, adjoint = the
+   transposed triple list with adjoint entries (rule regenerated into Gen/Adjoints.v) *)
+From Verif Require Import C05.Coo.
+Section CorrCoo.
+Context {T : Type} `{Num T} `{Conj T}.
+Variable close : T -> T -> bool.
+Record pcase := { p_rs : list (list T); p_cs : list (list T); p_es : list (nat * nat * oexpr T);
+                  p_xs : list (list T); p_Ax : list (list T); p_ys : list (list T); p_By : list (list T) }.
+Definition checkp (k : pcase) : bool :=
+  vsclose close (p_Ax k) (map (coo_eval (p_rs k) (p_cs k) (p_es k)) (p_xs k))
+  && vsclose close (p_By k) (map (coo_eval (p_cs k) (p_rs k) (coo_adjoint (p_es k))) (p_ys k)).
+End CorrCoo.
+
 Definition tolq : Q := 1 # 1000000000.
 Definition closeQ (a b : Q) : bool := Qclose tolq tolq a b.
 Definition closeC (a b : Q * Q) : bool := closeQ (fst a) (fst b) && closeQ (snd a) (snd b).
 Definition checkQ : @case Q -> bool := check closeQ.
 Definition checkC : @case (Q * Q) -> bool := check closeC.
+Definition checkpQ : @pcase Q -> bool := checkp closeQ.
+Definition checkpC : @pcase (Q * Q) -> bool := checkp closeC.
